@@ -131,6 +131,9 @@ def seam_mesh(rng, topo, natt=None, no_dedup=False, isolated=False, seam_rate=No
     for k, (t, d, c, nz, uid) in enumerate(specs):
         nval = layouts[k][1]
         atts.append(G.Attr(t, d, c, nz, uid, nval, [tp[k] for tp in tuples], G.make_attr_values(rng, t, d, c, nval)))
+    if rng.random() < 0.25:
+        # POSITION need not be attribute 0 (the loaders always put it first, the API does not require it)
+        rng.shuffle(atts)
     g = G.Geom(True, len(tuples), faces, atts)
     g.family = fam
     return g
